@@ -62,7 +62,16 @@ def read_cirq(obj, mode, nq):
     import cirq
 
     if mode == "gate":
-        ops = list(cirq.decompose_once(obj().on(*cirq.LineQubit.range(nq))))
+        gate_obj = obj()
+        ops = list(cirq.decompose_once(gate_obj.on(*cirq.LineQubit.range(nq))))
+        # the same gate object applied to other qubits must act on those qubits
+        if nq:
+            perm = list(reversed(range(nq, 2 * nq)))
+            ops2 = list(cirq.decompose_once(gate_obj.on(*[cirq.LineQubit(i) for i in perm])))
+            w1 = [[q.x for q in op.qubits] for op in ops]
+            w2 = [[q.x for q in op.qubits] for op in ops2]
+            if len(w1) != len(w2) or any([perm[i] for i in a] != b for a, b in zip(w1, w2)):
+                raise WidthMismatch("the exported gate object applied to qubits %s acts on %s" % (perm, sorted({x for w in w2 for x in w})))
     else:
         tops = list(obj.all_operations())
         ops = []
@@ -105,7 +114,11 @@ def read_cirq(obj, mode, nq):
     return out
 
 
-def read_sympy(obj, mode):
+class WidthMismatch(Exception):
+    pass
+
+
+def read_sympy(obj, mode, nq=None):
     from sympy import Mul
     from sympy.physics.quantum.gate import CGate, CNotGate, HadamardGate, SwapGate, XGate
     from sympy.physics.quantum.qubit import Qubit
@@ -129,6 +142,8 @@ def read_sympy(obj, mode):
         if isinstance(a, Qubit):
             if any(int(v) for v in a.qubit_values):
                 raise qamp.Unsupported("sympy circuit does not start from |0..0>")
+            if nq is not None and len(a.qubit_values) != nq:
+                raise WidthMismatch("sympy circuit acts on a %d-qubit register, the circuit has %d qubits" % (len(a.qubit_values), nq))
             continue
         if isinstance(a, CNotGate):
             out.append(mk("x", 1, [int(a.controls[0]), int(a.targets[0])]))
@@ -254,8 +269,13 @@ def make_items(tier, seed):
         "def prog(a: Qint[2]) -> Qint[2]:\n    b = a + 1\n    return b\n",
         "def prog(a: bool, b: bool) -> bool:\n    return a ^ b\n",
         "def prog(a: Qint[2]) -> Qint[4]:\n    return a\n",
+        "def prog(a: Qint[2], a_0: bool) -> bool:\n    return a[0] and not a_0\n",
+        "def prog(a_1: bool, a: Qint[2]) -> Qint[2]:\n    return a if a_1 else 1\n",
+        "def prog(x: Tuple[bool, bool], x_0: bool, x_1: bool) -> bool:\n    return (x[0] and x_1) ^ (x[1] and x_0)\n",
+        "def prog(a: Qint[4]) -> Qint[4]:\n    return a >> 1\n",
+        "def prog(a: bool, b: bool) -> Tuple[bool, bool]:\n    return (a and b, a and b)\n",
     ] + [p[1] for p in corpus.u_ctl()[:: (3 if tier == "thorough" else 9)] if corpus.size_ok(p[1], 6, 50)]
-    for fw in ("qiskit", "qasm2", "qasm3", "cirq"):
+    for fw in ("qiskit", "qasm2", "qasm3", "cirq", "sympy"):
         for i in range(0, len(progs), 4):
             items.append({"fw": fw, "mode": "circuit", "progs": progs[i : i + 4]})
             if fw.startswith("qasm"):
@@ -290,7 +310,7 @@ def judge(label, qc, fw, mode, st, solver):
         elif fw == "cirq":
             imp = read_cirq(obj, mode, nq)
         elif fw == "sympy":
-            imp = read_sympy(obj, mode)
+            imp = read_sympy(obj, mode, nq)
         else:
             imp, finds = read_qasm(obj, mode, int(fw[-1]), nq, qc.name)
             out += finds
@@ -312,6 +332,8 @@ def judge(label, qc, fw, mode, st, solver):
                 out.append(("qasm-phase-wrong", "%d parameters printed for %d parameterised gates" % (len(imp_par), len(src_par))))
     except qamp.Unsupported as e:
         return out + [("SKIP", str(e))]
+    except WidthMismatch as e:
+        return out + [("qubit-count", str(e))]
     except Exception as e:  # the exported object's own (lazy) code raised while being read
         return out + [("export-raises", "%s: %s" % (type(e).__name__, str(e)[:80]))]
     if any(i is None or i < 0 or i >= nq for g, w, p in imp for i in w):
